@@ -39,10 +39,10 @@ def detector_spaces(tier: str, chains: bool = True) -> Iterator[Tuple[str, str, 
                 yield focus, mode, s
 
     # rekey-to
-    full = A.addr_atoms("RekeyTo") + A.gtxn_variants(["txn RekeyTo", Z, "=="], "txn RekeyTo", (0, 1), (1,))
+    full = (A.addr_atoms("RekeyTo") + A.gtxn_variants(["txn RekeyTo", Z, "=="], "txn RekeyTo", (0, 1), (1,))
+            + A.cross_block(["txn RekeyTo", Z, "=="]) + A.cross_block(["txn RekeyTo", f"addr {A.LIT1}", "!="]))
     yield from emit("rekey-to", "direct", spaces.layered(full, _addr_small("RekeyTo"), tier, chains=chains, l2_top_alpha=top))
-    sh = (A.shuffled(["txn RekeyTo", Z, "=="]) + A.cross_block(["txn RekeyTo", f"addr {A.LIT1}", "!="])
-          + A.cross_block(["txn Fee", "int 1000", ">"]) + A.cross_block(["txn OnCompletion", "int UpdateApplication", "=="]))
+    sh = A.shuffled(["txn RekeyTo", Z, "=="]) + A.shuffled(["txn Fee", "int 1000", ">"])
     yield from emit("rekey-to", "shuffle", spaces.layered(sh, sh[:2], tier, chains=False, l2_size=2, l3=False, max_subs=1))
     # can-close-account / can-close-asset
     for det, field, ty in (("can-close-account", "CloseRemainderTo", "pay"), ("can-close-asset", "AssetCloseTo", "axfer")):
@@ -57,7 +57,8 @@ def detector_spaces(tier: str, chains: bool = True) -> Iterator[Tuple[str, str, 
         l2 = 2 if (q or det == "can-close-asset") else 3
         yield from emit(det, "direct", spaces.layered(full[::2] if q else full, small, tier, chains=chains, l2_size=l2, max_subs=1))
     # missing-fee-check
-    full = A.fee_atoms((1000, 272000, 272001) if q else (0, 1000, 272000, 272001, 1000000))
+    full = A.fee_atoms((1000, 272000, 272001) if q else (0, 1000, 272000, 272001, 1000000)) + A.cross_block(["txn Fee", "int 1000", ">"]) + A.cross_block(
+        ["txn Fee", "int 1000", "<="])
     small = [
         ["txn Fee", "int 1000", "<="],
         ["int 272001", "txn Fee", ">"],
@@ -67,7 +68,8 @@ def detector_spaces(tier: str, chains: bool = True) -> Iterator[Tuple[str, str, 
     ]
     yield from emit("missing-fee-check", "direct", spaces.layered(full[::2] if q else full, small, tier, chains=chains, l2_top_alpha=top, l2_size=2 if q else None))
     # is-updatable / is-deletable
-    full = A.kind_atoms("small" if q else "full")
+    full = A.kind_atoms("small" if q else "full") + A.cross_block(["txn OnCompletion", "int UpdateApplication", "!="]) + A.cross_block(
+        ["txn OnCompletion", "int UpdateApplication", "=="])
     small = [
         ["txn OnCompletion", "int UpdateApplication", "!="],
         ["txn OnCompletion", "int NoOp", "=="],
@@ -88,6 +90,14 @@ def detector_spaces(tier: str, chains: bool = True) -> Iterator[Tuple[str, str, 
         ["txn OnCompletion"], ["int UpdateApplication", "int DeleteApplication", "int NoOp"], ("==", "!=")
     )
     yield from emit("unprotected-updatable", "direct", spaces.layered(full, small, tier, chains=chains, l2_size=2 if q else 3, max_subs=1))
+    # G1A: odd raw layouts (branch / call as last instruction, back edges, labels in odd places) around one real check
+    from mc.gen import raw  # pylint: disable=import-outside-toplevel
+
+    n1a = 4 if q else 5
+    for focus, atom in (("rekey-to", ["txn RekeyTo", Z, "=="]), ("missing-fee-check", ["txn Fee", "int 1000", "<="]),
+                        ("is-updatable", ["txn OnCompletion", "int UpdateApplication", "!="]),
+                        ("rekey-to", ["txn RekeyTo", Z, "!="])):
+        yield from emit(focus, "g1a", raw.with_atom(atom, n1a))
     # group-size-check: statements that read another transaction by absolute index
     kinds = ("assert", "ret", "ret1", "err", "if", "while", "call", "pad")
     small = [
